@@ -269,6 +269,10 @@ func (this *RippleExtraInfo) Deserialization(source *common.ZeroCopySource) erro
 	if eof {
 		return fmt.Errorf("RippleExtraInfoParam deserialize length of pk array error")
 	}
+	// every pk takes at least one byte (its length prefix)
+	if l > source.Len() {
+		return fmt.Errorf("RippleExtraInfoParam deserialize length of pk array %d exceeds remaining %d bytes", l, source.Len())
+	}
 	pks := make([][]byte, l)
 	for i := uint64(0); i < l; i++ {
 		pks[i], eof = source.NextVarBytes()
